@@ -90,8 +90,24 @@ VARIANTS = [
     {"name": "P R2 full run flushed inline with a constant count", "file": SER, "expect": "silent",
      "old": "                elif zero_count == 255:\n                    _terminate_zeros()\n",
      "new": "                elif zero_count == 255:\n                    compressed_buff.append(255)\n                    zero_count = 0\n"},
-    # ------------------------------------------------------------------ R3 (informational)
-    {"name": "P R3 unbounded header peek only yields a NOTE", "file": DES, "expect": "silent",
+    {"name": "R1 input refused on its coded length before decoding", "file": DES, "expect": "C03.R1",
+     "old": "        decode_buf = bytearray()\n        in_zero = False\n",
+     "new": "        if len(msg_buf) > 0x3000:\n            raise ValueError(\"too large\")\n        decode_buf = bytearray()\n        in_zero = False\n"},
+    {"name": "R1 refusal keyed on the input length inside the loop", "file": DES, "expect": "C03.R1",
+     "old": "            if c == 0x00:\n                # Always have",
+     "new": "            if len(msg_buf) > 0x2000:\n                raise ValueError(\"too large\")\n            if c == 0x00:\n                # Always have"},
+    {"name": "P R1 cap as a local shared by the in-loop test", "expect": "silent", "edits": [
+        {"file": DES, "old": "        decode_buf = bytearray()\n        in_zero = False\n", "new": "        max_len = 0x3000\n        decode_buf = bytearray()\n        in_zero = False\n"},
+        {"file": DES, "old": "if len(decode_buf) > 0x3000:", "new": "if len(decode_buf) > max_len:"}]},
+    # ------------------------------------------------------------------ R3 (C01.R6 re-run)
+    {"name": "R3 header peek window loses the doubling of the extra field", "file": DES, "expect": "C03.R3",
+     "old": "16 + (msg.offset * 2)]", "new": "16 + msg.offset]"},
+    {"name": "R3 header peek window too short for a doubled message number", "file": DES, "expect": "C03.R3",
+     "old": "16 + (msg.offset * 2)]", "new": "12 + (msg.offset * 2)]"},
+    {"name": "P R3 header peek window relative to PHL_NAME", "file": DES, "expect": "silent",
+     "old": "header = data[PacketLayout.PHL_NAME:16 + (msg.offset * 2)]",
+     "new": "peek_len = 2 * (4 + msg.offset)\n            header = data[PacketLayout.PHL_NAME:PacketLayout.PHL_NAME + peek_len]"},
+    {"name": "P R3 whole body expanded for the peek", "file": DES, "expect": "silent",
      "old": "header = data[PacketLayout.PHL_NAME:16 + (msg.offset * 2)]", "new": "header = data[PacketLayout.PHL_NAME:]"},
     # ------------------------------------------------------------------ documented limits
     {"name": "X decoder run arithmetic off by one (value-level)", "file": DES, "expect": "miss",
